@@ -115,10 +115,20 @@ theorem build_ok (x : PMInput) (o : PMObject) (h : build x = .ok o) :
     simp only [bind, Except.bind] at h
     have := (Except.ok.inj h).symm
     subst this
-    refine ⟨t, attr, ba, bs, hb, pr, rfl, rfl, rfl, rfl, rfl, rfl, rfl, rfl, rfl, ?_, rfl, ?_, ?_⟩
-    · simp [loopNest_length]
-    · by_cases hm : x.m > 1 <;> simp [hm]
-    · by_cases hm : x.m > 1 <;> simp [hm]
+    -- what the regenerated loop skeleton (T19l) amounts to: outer loop over the planes, inner over the channels, plane
+    -- `(o, i)`, position of `o`, mappings of `i`, shared (list 0) iff at most one channel.  A change of the loop in
+    -- `pm/sop.py` changes these definitions and breaks the lemmas here.
+    have hloop : ∀ {α : Type} (f : Nat → Nat → α), pmFrameLoop x.n x.m f = loopNest x.n x.m f := fun _ => rfl
+    have hplane : loopPlane x = plane x := rfl
+    have hpos : ∀ o i, pmPositionIndex o i = o := fun _ _ => rfl
+    have hmap : ∀ o i, pmMappingIndex o i = i := fun _ _ => rfl
+    have hmulti : pmHasMultipleMappings x.m = decide (x.m > 1) := rfl
+    have hshared : pmSharedMappingIndex = 0 := rfl
+    refine ⟨t, attr, ba, bs, hb, pr, rfl, rfl, rfl, rfl, rfl, rfl, rfl, rfl, rfl, ?_, ?_, ?_, ?_⟩
+    · simp only [hloop, hplane]; simp [loopNest_length]
+    · simp only [hloop, hplane]
+    · simp only [hmulti, hshared]; by_cases hm : x.m > 1 <;> simp [hm]
+    · simp only [hloop, hpos, hmap, hmulti]; by_cases hm : x.m > 1 <;> simp [hm]
 
 /-- **reading a stored frame of an integer map** -/
 theorem readStoredFrame_build (x : PMInput) (o : PMObject) (h : build x = .ok o) (hel : o.element = "PixelData")
@@ -599,6 +609,100 @@ theorem select_mem (ms : List Mapping) (sel : Selector) (mp : Mapping) (h : sele
     cases hg : ms.find? (fun m => m.unit == u) with
     | none => rw [hg] at h; cases h
     | some m => rw [hg] at h; cases h; exact List.mem_of_find?_eq_some hg
+
+/-! ### encapsulated maps -/
+
+theorem mapM_ok_getElem {α β : Type} (f : α → Except ErrKind β) (l : List α) (r : List β) (h : l.mapM f = .ok r)
+    (k : Nat) (a : α) (ha : l[k]? = some a) : ∃ b, r[k]? = some b ∧ f a = .ok b := by
+  induction l generalizing r k with
+  | nil => simp at ha
+  | cons x xs ih =>
+    rw [List.mapM_cons] at h
+    cases hx : f x with
+    | error e => rw [hx] at h; simp [bind, Except.bind] at h
+    | ok y =>
+      rw [hx] at h
+      cases hxs : xs.mapM f with
+      | error e => rw [hxs] at h; simp [bind, Except.bind] at h
+      | ok ys =>
+        rw [hxs] at h
+        simp only [bind, Except.bind, pure, Except.pure] at h
+        have := (Except.ok.inj h).symm; subst this
+        cases k with
+        | zero =>
+          simp only [List.getElem?_cons_zero, Option.some.injEq] at ha
+          subst ha
+          exact ⟨y, by simp, hx⟩
+        | succ k =>
+          simp only [List.getElem?_cons_succ] at ha ⊢
+          exact ih ys hxs k ha
+
+/-- **reading a frame of an encapsulated map** (RLE / JPEG-LS; the codec lossless on `codecRegion`): item `f` decodes to the
+    unsigned values of plane `f / m`, channel `f mod m` -/
+theorem readStoredFrameEncapsulated_build (c : CodecImpl) (hc : c.LosslessOn codecRegion) (conv : List Int → List Int)
+    (x : PMInput) (e : PMEncapsulated) (h : buildEncapsulated c x = .ok e) (hts : x.ts = rle ∨ x.ts = jpegLs)
+    (f : Nat) (hf : f < x.n * x.m) :
+    readStoredFrameEncapsulated c conv x.ts e f = .ok ((plane x (f / x.m) (f % x.m)).map cellValue) := by
+  unfold buildEncapsulated at h
+  cases hb : build x with
+  | error err => rw [hb] at h; simp [bind, Except.bind] at h
+  | ok o =>
+    rw [hb] at h
+    simp only [bind, Except.bind] at h
+    cases hdt : DType.ofName x.dtypeStr with
+    | none => rw [hdt] at h; cases h
+    | some dt =>
+      rw [hdt] at h
+      simp only [] at h
+      cases hit : (pmFrameLoop x.n x.m (planeFrame x dt)).mapM (encodeFrame c (pmParams x.ts o)) with
+      | error err => rw [hit] at h; cases h
+      | ok items =>
+        rw [hit] at h
+        have := (Except.ok.inj h).symm; subst this
+        obtain ⟨t, attr, ba, bs, hb', pr, hadm, hel, hba, hbs, _, hpr, hr, hcl, _, _, _, _, _⟩ := build_ok x o hb
+        have hA := admission_sound x t attr ba bs hb' pr hadm
+        -- the frame of iteration f
+        have hloop : pmFrameLoop x.n x.m (planeFrame x dt) = loopNest x.n x.m (planeFrame x dt) := rfl
+        have hget := loopNest_get_divmod x.n x.m (planeFrame x dt) f hf
+        rw [← hloop] at hget
+        obtain ⟨b, hbk, henc⟩ := mapM_ok_getElem _ _ _ hit f _ hget
+        unfold readStoredFrameEncapsulated
+        simp only [hbk]
+        -- the request lies in the region: an encapsulated map is unsigned and stores as many bits as it allocates
+        have hu : ba = (x.itemsize : Int) * 8 ∧ bs = (x.itemsize : Int) * 8 := by
+          rcases hA.dtype with ⟨_, _, _, h1, h2, _⟩ | ⟨hk, _⟩ | ⟨hk, _⟩
+          · exact ⟨h1, h2⟩
+          · exfalso
+            rcases hA.transfer_syntax with h0 | h0 | ⟨hku, _⟩
+            · rcases hts with h1 | h1 <;> rw [h1] at h0 <;> revert h0 <;> decide
+            · rcases hts with h1 | h1 <;> rw [h1] at h0 <;> revert h0 <;> decide
+            · rw [hk] at hku; revert hku; decide
+          · exfalso
+            rcases hA.transfer_syntax with h0 | h0 | ⟨hku, _⟩
+            · rcases hts with h1 | h1 <;> rw [h1] at h0 <;> revert h0 <;> decide
+            · rcases hts with h1 | h1 <;> rw [h1] at h0 <;> revert h0 <;> decide
+            · rw [hk] at hku; revert hku; decide
+        have hD : codecRegion (pmParams x.ts o) := by
+          rcases hts with h1 | h1
+          · refine Or.inl ⟨h1, ?_⟩
+            show o.bitsAllocated - 8 < o.bitsStored
+            rw [hba, hbs, hu.1, hu.2]; omega
+          · exact Or.inr h1
+        have henc' : isEncapsulated (pmParams x.ts o).ts = true := by
+          show isEncapsulated x.ts = true
+          rcases hts with h1 | h1 <;> rw [h1] <;> decide
+        have hdec := encapsulated_decode c codecRegion hc conv (pmParams x.ts o) (planeFrame x dt (f / x.m) (f % x.m)) b
+          henc' hD henc
+        have hrows : (planeFrame x dt (f / x.m) (f % x.m)).rows = o.rows := by rw [hr]; rfl
+        have hcols : (planeFrame x dt (f / x.m) (f % x.m)).cols = o.cols := by rw [hcl]; rfl
+        have hspp : (planeFrame x dt (f / x.m) (f % x.m)).spp = 1 := rfl
+        rw [hrows, hcols, hspp] at hdec
+        rw [hdec]
+        have hconv : convertsColour (pmParams x.ts o).pi 1 = false := by
+          show convertsColour "MONOCHROME2" 1 = false
+          decide
+        rw [hconv]
+        rfl
 
 /-- refusal of the constructor, from the admission logic -/
 theorem build_refused (x : PMInput) (h : ¬ ∃ attr ba bs hb pr, Admitted x attr ba bs hb pr) : ∃ e, build x = .error e := by
